@@ -68,7 +68,8 @@ def docs(label="b"):
 
 DOC_NAMES = sorted(docs())
 PRESTATES = ["empty", "has-b"]
-TARGETS = ["graph", "dataset"]
+TARGETS = ["graph", "dataset", "named"]
+H = EX + "h"  # "named": the parse call is made on the named graph H of a Dataset that has other content; the whole Dataset is observed
 
 
 def make_target(target, prestate):
@@ -81,6 +82,9 @@ def make_target(target, prestate):
         if prestate == "has-b":
             t.add((BNode("b"), URIRef(P), URIRef(EX + "a")))
             t.add((BNode("b"), URIRef(P), URIRef(EX + "a"), URIRef(G1)))
+        if target == "named":
+            t.add((URIRef(EX + "a"), URIRef(P), URIRef(EX + "a")))
+            t.add((URIRef(EX + "a"), URIRef(P), URIRef(EX + "a"), URIRef(H)))
     return t
 
 
@@ -97,7 +101,7 @@ def bnodes_of(rs):
 def expected_rows(exp, target):
     out = set()
     for s, p, o, g in exp:
-        out.add((tuple(s), tuple(p), tuple(o), None if (g is None or target == "graph") else tuple(g)))
+        out.add((tuple(s), tuple(p), tuple(o), ("I", H) if target == "named" else None if (g is None or target == "graph") else tuple(g)))
     return out
 
 
@@ -121,18 +125,22 @@ def run_history(target, prestate, names, horizon=10.0):
         fmt, text, exp, quad_only = docs(label)[name]
         if quad_only and target == "graph":
             continue
+        if quad_only and target == "named" and name not in ("nq-one", "hext-one"):
+            continue  # (where the graphs of a quad document go when the sink is a named graph is not specified; the two one-triple documents are kept for monotonicity)
         steps += 1
         cls = "%s|%s" % (fmt, "label-collides-with-existing-node-or-earlier-document" if (dyn or idx > 0 or ("B", "b") in bnodes_of(before))
                          else "first-document")
         try:
             with seams.watchdog(horizon):
-                t.parse(data=text, format=fmt)
+                (t.graph(URIRef(H)) if target == "named" else t).parse(data=text, format=fmt)
         except Exception as e:  # noqa: BLE001
             return (("%s|parse-raises|%s" % (cls, type(e).__name__), {"exc": repr(e)[:300], "document": text}), steps)
         after = rows(t)
         if not before <= after:
             return (("%s|existing-quads-removed-or-altered" % cls, {"lost": sorted(before - after, key=repr), "document": text}), steps)
         new = after - before
+        if quad_only and target == "named":
+            continue  # monotonicity only
         want = expected_rows(exp, target)
         ok = iso(new, want)
         if not ok and fmt == "trix" and target != "graph":
